@@ -244,14 +244,24 @@ def _await_read(ctx, fut):
     outs = []
     _maybe_io_error(ex, st, outs, 'read')
     some = z3.And(z3.UGE(n, BV(1, 64)), z3.ULE(n, rem), z3.ULE(n, dst.val.len))
+    budget = getattr(ex, 'read_budget', None)
+    done = st.env.get('nreads', 0)
+    if budget is not None and done + 1 >= budget:
+        # segmentation bound: the stream arrives in at most `budget` pieces -> the last piece carries all that is left
+        some = z3.And(z3.UGE(rem, BV(1, 64)), n == rem, z3.ULE(rem, dst.val.len))
+    st.env['nreads'] = done + 1
+    last_piece = budget is not None and done + 1 >= budget
     s2 = st.fork()
     try:
+        if concrete(rem) == 0:
+            raise PathDead()
         ex.assume(s2, some)
         if ex.feasible(s2):
             d2 = BufLoc(ex, s2, fut.args[1])
             old = d2.val
-            d2.set(old.overwrite(0, strm.inp.slice(strm.pos, n)))
-            ex.store(s2, loc[0], loc[1], strm.replace(pos=simp(strm.pos + n)))
+            got = strm.inp.slice(strm.pos, n, old.kind)
+            d2.set(got.concat(old.slice(n, simp(old.len - n), old.kind), old.kind))
+            ex.store(s2, loc[0], loc[1], strm.replace(pos=strm.inp.len if last_piece else simp(strm.pos + n)))
             s2.trace.append(('read', strm.name, n))
             outs.append((s2, mk_result(ex, ok=Int(n, 64, False))))
     except PathDead:
@@ -551,3 +561,29 @@ def slice_u8_contains(ctx):
 
 def install(engine):
     pass   # registered through contracts.REG
+
+
+# --------------------------------------------------------------------------- str::chars().count()
+
+@contract(r'^core::str::<impl str>::chars$')
+def str_chars(ctx):
+    b = BufLoc(ctx.ex, ctx.st, ctx.args[0]).val
+    return Agg('Chars', {0: b})
+
+
+@contract(r"^<Chars<'_> as Iterator>::count$|^<std::str::Chars<'_> as Iterator>::count$|^<core::str::Chars<'_> as Iterator>::count$")
+def chars_count(ctx):
+    """number of chars of a valid UTF-8 string = number of bytes that are not continuation bytes (10xxxxxx)"""
+    ex, st = ctx.ex, ctx.st
+    it = ctx.args[0]
+    if not (isinstance(it, Agg) and it.name == 'Chars'):
+        return NotImplemented
+    b = it.fields[0]
+    bound = getattr(ex, 'chars_bound', 320)
+    ex.assume(st, z3.ULE(b.len, BV(bound, 64)))
+    st.env.setdefault('bounds_used', []).append('chars().count(): string length <= %d' % bound)
+    # 12-bit balanced adder tree (bound < 4096), widened at the end: far easier for the SAT back end than a 64-bit chain
+    terms = [z3.If(z3.And(z3.ULT(BV(i, 64), b.len), z3.Extract(7, 6, b.at(i)) != BV(2, 2)), BV(1, 12), BV(0, 12)) for i in range(bound)]
+    while len(terms) > 1:
+        terms = [terms[k] + terms[k + 1] if k + 1 < len(terms) else terms[k] for k in range(0, len(terms), 2)]
+    return Int(simp(z3.ZeroExt(52, terms[0])), 64, False)
